@@ -5,17 +5,13 @@ import (
 	"bytes"
 	"context"
 	"fmt"
-	"io"
 	"os"
 	"path/filepath"
 	"runtime"
-	"sync/atomic"
 	"testing"
-	"time"
 
 	"verif/harness/h"
 
-	"github.com/itchio/lake"
 	"github.com/itchio/lake/pools/fspool"
 	"github.com/itchio/wharf/pwr"
 	"pgregory.net/rapid"
@@ -30,68 +26,13 @@ type Spec struct {
 	Runs   int    `json:"runs"`
 }
 
-// jitter hands out perturbation decisions from the spec's byte string.
-type jitter struct {
-	b []byte
-	n int64
-}
-
-func (j *jitter) next() byte {
-	if len(j.b) == 0 {
-		return 0
-	}
-	i := atomic.AddInt64(&j.n, 1)
-	return j.b[int(i)%len(j.b)]
-}
-
-func (j *jitter) pause(b byte) {
-	switch b % 8 {
-	case 0:
-		runtime.Gosched()
-	case 1:
-		time.Sleep(time.Duration(b>>3) * 5 * time.Microsecond)
-	}
-}
-
-type jitterPool struct {
-	lake.Pool
-	j *jitter
-}
-
-type jitterReader struct {
-	r io.Reader
-	j *jitter
-}
-
-func (jr *jitterReader) Read(p []byte) (int, error) {
-	b := jr.j.next()
-	if len(p) > 1 && b&0x80 != 0 {
-		// short read: 1 .. len(p)
-		n := 1 + (int(b&0x7f)*len(p))/128
-		if n > len(p) {
-			n = len(p)
-		}
-		p = p[:n]
-	}
-	jr.j.pause(jr.j.next())
-	return jr.r.Read(p)
-}
-
-func (p *jitterPool) GetReader(i int64) (io.Reader, error) {
-	r, err := p.Pool.GetReader(i)
-	if err != nil {
-		return nil, err
-	}
-	return &jitterReader{r, p.j}, nil
-}
-
 type jitterWriter struct {
 	buf bytes.Buffer
-	j   *jitter
+	j   *h.Jitter
 }
 
 func (w *jitterWriter) Write(p []byte) (int, error) {
-	w.j.pause(w.j.next())
+	w.j.Pause(w.j.Next())
 	return w.buf.Write(p)
 }
 
@@ -129,13 +70,13 @@ func check(s Spec) h.Result {
 	}
 	for i := 0; i < runs; i++ {
 		runtime.GOMAXPROCS(procs[i%len(procs)])
-		j := &jitter{b: s.Jitter, n: int64(i * 7)}
+		j := h.NewJitter(s.Jitter, i*7)
 		if i == 0 {
-			j = &jitter{} // first run unperturbed
+			j = h.NewJitter(nil, 0) // first run unperturbed
 		}
 		dctx := &pwr.DiffContext{
 			Compression: s.Comp.Settings(), Consumer: h.Quiet(),
-			SourceContainer: sc, Pool: &jitterPool{fspool.New(sc, nd), j},
+			SourceContainer: sc, Pool: &h.JitterPool{Pool: fspool.New(sc, nd), J: j},
 			TargetContainer: tc, TargetSignature: th,
 		}
 		pw, sw := &jitterWriter{j: j}, &jitterWriter{j: j}
